@@ -129,8 +129,14 @@ class SyncInterpreter(BaseInterpreter[TContext, TEvent]):
         logger.info("⛓️ Initializing Synchronous Interpreter... 🚀")
 
         # ⚙️ Initialize synchronous-specific attributes
-        self._event_queue: Deque[Union[Event, DoneEvent, AfterEvent]] = deque()
+        #: Pending `(event, chain depth)` pairs. An event queued by the
+        #: draining thread while it processes another event continues that
+        #: event's self-raised chain; anything else starts at depth 0.
+        self._event_queue: Deque[Any] = deque()
         self._is_processing: bool = False
+        #: Chain depth of the event being processed, and the thread doing it.
+        self._chain_depth: int = 0
+        self._drain_thread: Optional[int] = None
         self._after_threads: Dict[str, threading.Thread] = {}
         self._after_events: Dict[str, threading.Event] = {}
         #: Cancellation flags for pending delayed sends, released by `stop()`.
@@ -207,6 +213,7 @@ class SyncInterpreter(BaseInterpreter[TContext, TEvent]):
         # active leaves. Guarding defers such events until entry has settled,
         # after which the queue is drained normally.
         self._is_processing = True
+        self._drain_thread = threading.get_ident()
         try:
             self._enter_states([self.machine])
             # 🔄 Settle immediate "always" transitions behind the same guard
@@ -313,7 +320,7 @@ class SyncInterpreter(BaseInterpreter[TContext, TEvent]):
             return
 
         event_obj = self._prepare_event(event_or_type, **payload)
-        self._event_queue.append(event_obj)
+        self._event_queue.append((event_obj, self._new_event_depth()))
         self._process_event_queue()
 
     def send_events(
@@ -328,9 +335,28 @@ class SyncInterpreter(BaseInterpreter[TContext, TEvent]):
 
         for event_or_type in events:
             event_obj = self._prepare_event(event_or_type)
-            self._event_queue.append(event_obj)
+            self._event_queue.append((event_obj, self._new_event_depth()))
 
         self._process_event_queue()
+
+    def _new_event_depth(self) -> int:
+        """Chain depth for an event that is being queued right now.
+
+        🔁 Only an event queued by the draining thread itself, while it is
+        processing another event (a `raise`, a `done.*` notification, an
+        action calling `send()`), continues that event's chain. Events from
+        callers, timer threads and actors start a new chain, so the bound on
+        the chain never throttles or discards external traffic.
+
+        Returns:
+            int: The depth to store with the event.
+        """
+        if (
+            self._is_processing
+            and self._drain_thread == threading.get_ident()
+        ):
+            return self._chain_depth + 1
+        return 0
 
     def _process_event_queue(self) -> None:
         """Processes all events in the queue until it is empty.
@@ -342,13 +368,14 @@ class SyncInterpreter(BaseInterpreter[TContext, TEvent]):
             return
 
         self._is_processing = True
-        # 🛟 Bound the macrostep. The `raise` built-in re-enters this queue, so
-        #    an action that raises its own trigger event feeds itself forever.
-        #    `max_iterations` previously guarded only the eventless (`always`)
-        #    path, leaving this loop unbounded: `send()` never returned, with
-        #    no timeout and no way to interrupt it. The same ceiling now
-        #    applies to both paths.
-        processed = 0
+        self._drain_thread = threading.get_ident()
+        # 🛟 Bound the self-raised CHAIN, not the drain. The `raise` built-in
+        #    re-enters this queue, so an action that raises its own trigger
+        #    event feeds itself forever. Counting every event handled by one
+        #    drain (and clearing the queue at the limit) cannot tell that from
+        #    a busy producer: a `send_events` burst larger than
+        #    `max_iterations` lost its tail. Each event carries the depth of
+        #    the chain that produced it, and only a chain is cut.
         limit = getattr(self.machine, "max_iterations", 1000)
         try:
             # 🛑 Like the async run loop, stop consuming once the machine is
@@ -356,20 +383,18 @@ class SyncInterpreter(BaseInterpreter[TContext, TEvent]):
             #    the very transition that completed it, or sent before a
             #    `stop()` issued from an action) were processed anyway.
             while self._event_queue and self.status == "running":
-                processed += 1
-                if processed > limit:
+                current_event, chain_depth = self._event_queue.popleft()
+                if chain_depth > limit:
                     logger.error(
-                        "🛑 Exceeded %d queued events in a single macrostep on "
-                        "'%s'. This usually means an action raises the event "
-                        "that triggers it. Discarding %d pending event(s).",
+                        "🛑 Exceeded %d chained self-raised events on '%s'. "
+                        "This usually means an action raises the event that "
+                        "triggers it. Breaking the chain; externally queued "
+                        "events are unaffected.",
                         limit,
                         self.id,
-                        len(self._event_queue),
                     )
-                    self._event_queue.clear()
-                    break
-
-                current_event = self._event_queue.popleft()
+                    continue
+                self._chain_depth = chain_depth
                 logger.info("⚙️ Processing event: '%s'", current_event.type)
 
                 for plugin in self._plugins:
@@ -379,6 +404,7 @@ class SyncInterpreter(BaseInterpreter[TContext, TEvent]):
                 self._process_transient_transitions()
         finally:
             self._is_processing = False
+            self._chain_depth = 0
             logger.debug("🎉 Event processing cycle completed. Queue empty.")
 
     # -------------------------------------------------------------------------
